@@ -34,6 +34,8 @@ class ArrayHistory(Engine):
     quick_runs = 4000
     thorough_runs = 120000
     batch = 40
+    reopen_modes = ('r', 'r+', 'r+', 'r+')
+    create_r_p = 0.15
 
     # ------------------------------------------------------------------ gen
     def gen_create(self, rng):
@@ -44,7 +46,7 @@ class ArrayHistory(Engine):
         op = {'op': 'create', 'how': 'asarray',
               'data': {'gen': 'rand', 'rows': rows, 'trail': trail, 'dtype': dtype,
                        'layout': rng.choice(D.LAYOUTS), 'form': 'ndarray', 'vseed': rng.getrandbits(32)},
-              'mode': 'r+' if rng.random() < 0.85 else 'r',
+              'mode': 'r' if rng.random() < self.create_r_p else 'r+',
               'chunklen': rng.choice([None, 1, 2, 5])}
         if rng.random() < 0.25:
             op = {'op': 'create', 'how': 'create_array', 'shape': [rows] + trail, 'dtype': dtype,
@@ -109,13 +111,15 @@ class ArrayHistory(Engine):
         if k == 'mode':
             return {'op': 'mode', 'to': rng.choice(['r', 'r+', 'r+'])}
         if k == 'reopen':
-            return {'op': 'reopen', 'mode': rng.choice(['r', 'r+', 'r+', 'r+'])}
+            return {'op': 'reopen', 'mode': rng.choice(self.reopen_modes)}
         if k == 'meta':
             return M.gen_meta_op(rng)
         if k == 'recreate':
             c = self.gen_create(rng)
             c['op'] = 'recreate'
             return c
+        if k == 'delete':
+            return {'op': 'delete'}
         raise HarnessError(k)
 
     def gen(self, rng, i, tier):
@@ -292,6 +296,9 @@ class _State:
             return
         if k == 'recreate':
             return self.do_create(op, first=False)
+        if k == 'delete' and self.has('ro') and self.mode != 'r':
+            self.h.accessmode = 'r'
+            self.mode = 'r'
         if k in MUTATING and self.mode == 'r':
             if self.has('ro'):
                 return self.do_readonly(op)
@@ -544,10 +551,15 @@ class _State:
 
     def do_reopen(self, op):
         self.h = None
-        self.h = self.darr.Array(self.path, accessmode=op['mode'])
-        self.mode = op['mode']
+        if op['mode'] == 'default':
+            self.h = self.darr.Array(self.path)
+            self.mode = 'r'
+            self.probe('r_by_default_open')
+        else:
+            self.h = self.darr.Array(self.path, accessmode=op['mode'])
+            self.mode = op['mode']
         self.probe('restart')
-        self.log('reopen', op['mode'])
+        self.log('reopen', self.mode)
         self.after_step(op)
 
     def do_meta(self, op):
@@ -565,11 +577,85 @@ class _State:
         self.after_step(op)
 
     def do_delete(self, op):
-        raise HarnessError('delete only generated for read-only checks')
+        exc = self.call(lambda: self.darr.delete_array(self.h))
+        if exc is not None:
+            raise Viol('model.delete', f'raises:{type(exc).__name__}', str(exc)[:300])
+        if os.path.lexists(self.path):
+            raise Viol('model.delete', 'path_remains', str(sorted(os.listdir(self.path)))[:200])
+        self.mutations_ok += 1
+        self.probe('deleted')
+        self.h = None
+        self.model = None
+        self.steps += 1
+        self.emit({'step': self.idx, 'op': 'delete', 'out': 'ok'})
 
     # -- read-only enforcement (C11)
+    def fire(self, op):
+        """Perform only the real call of a mutating op; returns (exception|None, must_raise)."""
+        k = op['op']
+        m = self.model
+        if k == 'append':
+            obj = self.resolve_bad(op)[0] if 'bad' in op else D.build(op['data'], trail=m.shape[1:], target_dtype=m.dtype)[0]
+            exp = self.model_cast(obj)
+            return self.call(lambda: self.h.append(obj)), not (exp is not None and exp.shape[0] == 0)
+        if k == 'iterappend':
+            objs = [D.build(d, trail=m.shape[1:], target_dtype=m.dtype)[0] for d in op['chunks']]
+            exps = [self.model_cast(o) for o in objs]
+            eff = any(e is None or e.shape[0] > 0 for e in exps)
+            it = objs if op.get('as', 'list') != 'generator' else (o for o in objs)
+            return self.call(lambda: self.h.iterappend(it)), eff
+        if k == 'setitem':
+            idx = self.resolve_index(op['index'])
+            return self.call(lambda: self.h.__setitem__(idx, 1)), True
+        if k == 'truncate':
+            return self.call(lambda: self.darr.truncate_array(self.h, int(op['index']))), True
+        if k == 'delete':
+            return self.call(lambda: self.darr.delete_array(self.h)), True
+        if k == 'recreate':
+            return None, False
+        md = self.h.metadata
+        if k == 'meta_set':
+            return self.call(lambda: md.__setitem__(op['key'], M.build_value(op['value']))), True
+        if k == 'meta_update':
+            d = M.build_dict(op['d'])
+            return self.call(lambda: md.update(d)), bool(d)
+        if k == 'meta_pop':
+            if op.get('default') is None:
+                return self.call(lambda: md.pop(op['key'])), True
+            return self.call(lambda: md.pop(op['key'], M.build_value(op['default']))), op['key'] in self.meta
+        if k == 'meta_popitem':
+            return self.call(lambda: md.popitem()), True
+        if k == 'meta_del':
+            return self.call(lambda: md.__delitem__(op['key'])), True
+        raise HarnessError(k)
+
     def do_readonly(self, op):
-        raise HarnessError('ro oracle not available in this engine')
+        k = op['op']
+        if k == 'recreate':
+            self.log(k, 'skipped_readonly')
+            return
+        pre = snapshot(self.path)
+        exc, must = self.fire(op)
+        d = snap_diff(pre, snapshot(self.path))
+        empty = ':empty_array' if self.model.shape[0] == 0 else ''
+        if d:
+            raise Viol('ro.changed', k + empty, d)
+        if must and exc is None:
+            raise Viol('ro.no_exception', k + empty, '')
+        self.probe('ro_fired:' + k)
+        if self.model.shape[0] == 0:
+            self.probe('ro_fired_on_empty_array')
+        self.log(k, 'ro_raised' if exc is not None else 'ro_noop')
+        # the same record must succeed after switching to r+
+        self.h.accessmode = 'r+'
+        self.mode = 'r+'
+        if k == 'truncate' and op.get('by', 'handle') != 'handle':
+            op = dict(op, by='handle')
+        getattr(self, 'do_' + (k if not k.startswith('meta_') else 'meta'))(op)
+        if self.h is not None and op.get('back', True):
+            self.h.accessmode = 'r'
+            self.mode = 'r'
+            self.probe('r_by_assignment')
 
     # -- common
     def call(self, f):
